@@ -79,7 +79,12 @@ def run(tier, seed):
     chains = tq.with_patch_options(tq.enumerate_series(q, d, allow_after_failure=0, plain_files={'f'}), d)
     # keep chains whose patches mostly touch f (several patches on one file), plus everything with <= 2 file patches
     seen, uniq = set(), []
-    for s in chains + (tq.enumerate_series(2, 1) if tier == 'quick' else tq.enumerate_series(2, 2)) + tq.special_series(m0):
+    # ... and every series of up to two file patches with one patch marked -R (its text inverted) or at another strip level:
+    # the names under which the backups go are the names the files have before the patch, whichever way round the patch is written
+    opts = [s for s in tq.with_patch_options(tq.enumerate_series(2, 1), 2) if any((p.reverse or (tier != 'quick' and p.strip != 1)) for p in s)]
+    if tier == 'quick':   # quick: the reversed patch renames, creates or deletes, or has two names (where the names are what matters)
+        opts = [s for s in opts if any(p.reverse and any(fp.name.startswith(('rename', 'create', 'delete', 'orig')) for fp in p.fps) for p in s)]
+    for s in chains + (tq.enumerate_series(2, 1) if tier == 'quick' else tq.enumerate_series(2, 2)) + opts + tq.special_series(m0):
         k = tq.describe_series(s)
         if k not in seen:
             seen.add(k)
